@@ -352,5 +352,83 @@ def check (lin : Bool) (maxSteps : Nat) (tolS : Sexp) (d csS esS : List Sexp) (i
                         .atom (sci accB.worstVar), .atom (sci accB.worstExpr)]
   | _, _, _, _, _, _, _ => app "err" [.atom "decode"]
 
+/-! ### auxiliary ranges of a compiled model
+
+`Linearizer::linearize` declares auxiliaries (`$max_k`, `$min_k`, `$abs_k`, selectors …) whose declared range is the
+compiler's claim about a sub-expression.  Without knowing that sub-expression: every row of the compiled model in
+which exactly ONE auxiliary occurs (all other variables being source variables) bounds that auxiliary at a given
+source point; any feasible extension of a source-feasible point has to satisfy all of them AND lie in the declared
+range.  So if, at some source-feasible point, the rows leave no value inside the published range, the published range
+misses the value the auxiliary stands for (e.g. `$max_0 - x >= 0` at `x = 9` against `$max_0 ∈ [0, 5]`). -/
+
+def isAux (n : String) : Bool := n.startsWith "$"
+
+structure AuxIv where
+  lo : E := .ninf
+  hi : E := .pinf
+
+def emax (a b : E) : E := if Ext.lt a b then b else a
+def emin (a b : E) : E := if Ext.lt b a then b else a
+
+/-- the interval a single-auxiliary row leaves for its auxiliary at `ρ` (`none`: not such a row). -/
+def rowBound (vars : List String) (assigned : List (String × Rat)) (r : LinRow E) : Option (String × AuxIv) :=
+  let terms := (vars.zip r.coeffs).filter fun p => match p.2 with | .fin c => c != 0 | _ => true
+  let auxs := terms.filter (fun p => isAux p.1)
+  match auxs, r.rhs with
+  | [(a, .fin c)], .fin rhs =>
+    let others := terms.filter (fun p => !(isAux p.1))
+    let vals := others.map fun p => match p.2, assigned.find? (·.1 == p.1) with
+      | .fin cj, some q => some (cj * q.2)
+      | _, _ => none
+    if vals.any Option.isNone then none else
+    let s : Rat := vals.foldl (fun acc v => acc + v.getD 0) 0
+    let b : Rat := (rhs - s) / c
+    let upper : AuxIv := { hi := .fin b }
+    let lower : AuxIv := { lo := .fin b }
+    match r.cmp, decide (c > 0) with
+    | .le, true | .lt, true | .ge, false | .gt, false => some (a, upper)
+    | .ge, true | .gt, true | .le, false | .lt, false => some (a, lower)
+    | .eq, _ => some (a, { lo := .fin b, hi := .fin b })
+  | _, _ => none
+
+def checkAux (tolS : Sexp) (d csS : List Sexp) (lmS : Sexp) : Sexp :=
+  match (decNumS tolS : Option E), optAll (d.map (DomVar.dec (α := E))), optAll (csS.map (Constraint.dec (α := E))),
+        (LinModel.dec lmS : Option (LinModel E)) with
+  | some tol, some dom, some cs, some lm =>
+    let inCs := Oracle.dedup (cs.flatMap fun c => Oracle.vars c.lhs ++ Oracle.vars c.rhs)
+    let lits := dedupQ (cs.flatMap fun c => literals c.lhs ++ literals c.rhs)
+    let exact := Analyzer.analyze dom cs tol 40
+    let relevant := dom.filter (fun dv => inCs.contains dv.name)
+    if inCs.any (fun v => !(dom.any (·.name == v))) then app "ok" [.atom "skipped-undeclared"] else
+    let cap := perVar 3000 relevant.length
+    let axes := relevant.map fun dv =>
+      (dv.name, feasCandidates (some dv.ty) (Bounds.ofVarType dv.ty) (Analyzer.varBounds exact.variableBounds dv.name) lits cap)
+    let auxDoms := lm.domain.filter (fun dv => isAux dv.name)
+    let res : Nat × Nat × Option Sexp := (grid axes).foldl (fun (acc : Nat × Nat × Option Sexp) a =>
+      if acc.2.2.isSome then acc else
+      let ρ := Oracle.lookup a
+      if !(cs.all (holds ρ)) then (acc.1 + 1, acc.2.1, none) else
+      let ivs := lm.rows.filterMap (rowBound lm.vars a)
+      let bad := auxDoms.findSome? fun dv =>
+        let decl : Bounds E := Bounds.ofVarType dv.ty
+        let mine := ivs.filter (·.1 == dv.name)
+        let lo := mine.foldl (fun acc p => emax acc p.2.lo) decl.lower
+        let hi := mine.foldl (fun acc p => emin acc p.2.hi) decl.upper
+        let integral := match dv.ty with | .bool | .int _ _ => true | _ => false
+        match lo, hi with
+        | .fin l, .fin h =>
+          let slack : Rat := rmax 1 (rmax (rabs l) (rabs h)) / 1000000000
+          let empty := if integral then ((l - slack).ceil : Int) > ((h + slack).floor : Int) else l > h + slack
+          if empty then some (app "violation" [.atom "aux-range-excludes-defining-value", .str dv.name, dv.ty.enc,
+            app "rows-need" [ratAtom l, ratAtom h], Oracle.encAssign a]) else none
+        | .pinf, _ | _, .ninf | .nan, _ | _, .nan =>
+          some (app "violation" [.atom "aux-range-excludes-defining-value", .str dv.name, dv.ty.enc, Oracle.encAssign a])
+        | _, _ => none
+      (acc.1 + 1, acc.2.1 + 1, bad)) (0, 0, none)
+    match res.2.2 with
+    | some v => v
+    | none => app "ok" [.atom (toString res.1), .atom (toString res.2.1), .atom (toString auxDoms.length)]
+  | _, _, _, _ => app "err" [.atom "decode"]
+
 end BoundsOracle
 end Rooc
